@@ -65,7 +65,7 @@ CHECKS = {
             'Bounded model checking: save/load and dumbtypecheck for every integer, every real standing for a float and opaque strings; all call sequences of length <= 3 over 20 operations with symbolic values (about 11000 sequences), the observers (get, get_parameters, varylist, get_variable_values) compared with the dictionary model after every call; a stored value used as a condition forks the sequence (value == 0 / != 0).', 'Bit-exact float round trip is an assumed contract.', '6/C19'),
     'C18': ('path exploration of the real reduce_cell (search range uvw=1) on symbolic cells ranging over boxes: argsort as a merge sort with solver-decided comparisons, coplanarity tests as path decisions; unimodularity, metric and minimality obligations decided by z3/cvc5 (QF_NRA)',
             'Bounded model checking over three boxes of cells and both modules: selected combinations are concrete on each path; metric equality, unimodularity and minimality of the first two vectors are decided for every cell of the box. '
-            'The default search range uvw=3 (sorting 216 symbolic norms) is outside the bound.', 'Known finding (pinned): rows/columns mix-up in the final a_to_cell step, both modules.', '6/C18'),
+            'The default search range uvw=3 (sorting 216 symbolic norms) is outside the bound. History: a concrete call with another search range precedes every run (thorough tier: uvw=2 symbolic after uvw=1 concrete, budgeted).', 'Known finding (pinned): rows/columns mix-up in the final a_to_cell step, both modules.', '6/C18'),
     'C06': ('path exploration of the real genhkl_base/genhkl_unique/genhkl_all on a symbolic reciprocal metric of the Laue family and a symbolic shell (sintl through its C01 summary, comparisons on squares => linear real arithmetic for concrete integer hkl); loops unrolled under a cube precondition; set-equality obligations per leaf decided by z3 (QF_LRA)',
             'Bounded model checking: 14 Laue classes/settings (symmorphic representative), lattice cube |h|_inf <= 2 (1 for mmm, 2/m, -1 and the rhombohedral settings), every metric of the stated diagonally dominant region, every shell: genhkl_all lists exactly the in-shell allowed box points once, '
             'genhkl_unique one per Laue family; about 2700 paths in the quick tier (the triclinic class stops at its path budget and is reported non-exhaustive).', 'Ordering of the rows by sin(theta)/lambda is decided for the cubic classes (thorough: also 4/mmm, 6/mmm) with argsort as a merge sort whose comparisons are path decisions; elsewhere argsort is in membership mode. Reflection conditions are C05.', '6/C05-C06'),
